@@ -32,3 +32,14 @@ def parseOmenLine (line : CPs) : Option (Nat × CPs) :=
 def loadOmenText (text : CPs) : Option (List (Nat × CPs)) := (codecLines text).mapM parseOmenLine
 
 end Pcfg
+
+namespace Omen
+open Pcfg
+
+/-- `_save_alphabet`: one letter per line -/
+def alphabetText (letters : CPs) : CPs := letters.flatMap fun c => [c, 10]
+
+/-- `_load_alphabet`: codec line iteration, `rstrip('\n\r')` -/
+def loadAlphabet (text : CPs) : List CPs := (codecLines text).map (rstripChars [10, 13])
+
+end Omen
